@@ -39,6 +39,9 @@ type Case struct {
 	CorruptProofAt      int            `json:"corrupt_proof_at"`       // -1 none
 	MinGenesisTimeDelta int64          `json:"min_genesis_time_delta"` // MIN_GENESIS_TIME = genesis_time + delta
 	MinActiveDelta      int64          `json:"min_active_delta"`       // MIN_GENESIS_ACTIVE_VALIDATOR_COUNT = active + delta
+	// absolute values from the whole 64-bit range instead (2^31, 2^32, 2^63 ± …, 2^64-1: "never" settings)
+	MinActiveAbs *uint64 `json:"min_active_abs,omitempty"`
+	MinTimeAbs   *uint64 `json:"min_time_abs,omitempty"`
 	KickStart           bool           `json:"kickstart"`
 	KickStartSigs       bool           `json:"kickstart_sigs,omitempty"` // KickStartStateWithSignatures (secret keys given)
 	WrongKeyAt          int            `json:"wrong_key_at,omitempty"`   // 1-based entry whose secret key belongs to another validator (0 = none)
@@ -283,18 +286,27 @@ func run(r *report.Run, c *Case) *report.Failure {
 		if mac < 0 {
 			mac = 0
 		}
-		cfg2.U["MIN_GENESIS_TIME"], cfg2.U["MIN_GENESIS_ACTIVE_VALIDATOR_COUNT"] = uint64(mgt), uint64(mac)
+		umgt, umac := uint64(mgt), uint64(mac)
+		if c.MinTimeAbs != nil {
+			umgt = *c.MinTimeAbs
+		}
+		if c.MinActiveAbs != nil {
+			umac = *c.MinActiveAbs
+			r.Class("valid-genesis:min-active-count-from-the-whole-64-bit-range")
+			r.Hit("valid-genesis:min-active-count-from-the-whole-64-bit-range")
+		}
+		cfg2.U["MIN_GENESIS_TIME"], cfg2.U["MIN_GENESIS_ACTIVE_VALIDATOR_COUNT"] = umgt, umac
 		cfg2.Name = "custom" // the predicate's parameters are set by name on the library side too
 		want := refspec.NewSpec(cfg2).IsValidGenesisState(ref)
 		spec2 := *spec
-		spec2.MIN_GENESIS_TIME = common.Timestamp(mgt)
-		spec2.MIN_GENESIS_ACTIVE_VALIDATOR_COUNT = view.Uint64View(mac)
+		spec2.MIN_GENESIS_TIME = common.Timestamp(umgt)
+		spec2.MIN_GENESIS_ACTIVE_VALIDATOR_COUNT = view.Uint64View(umac)
 		got, err := phase0.IsValidGenesisState(&spec2, st)
 		if err != nil {
 			return report.Failf("IsValidGenesisState/error", "%v", err)
 		}
 		if got != want {
-			return report.Failf("IsValidGenesisState/wrong", "IsValidGenesisState = %v, spec says %v (genesis_time %d vs MIN %d; active %d vs MIN %d)", got, want, ref.GenesisTime, mgt, active, mac)
+			return report.Failf("IsValidGenesisState/wrong", "IsValidGenesisState = %v, spec says %v (genesis_time %d vs MIN %d; active %d vs MIN %d)", got, want, ref.GenesisTime, umgt, active, umac)
 		}
 		r.Class(fmt.Sprintf("valid-genesis=%v", want))
 	}
@@ -450,6 +462,14 @@ func genCase(t *rapid.T) *Case {
 	}
 	c.MinGenesisTimeDelta = int64(rapid.IntRange(-2, 2).Draw(t, "mgt_d"))
 	c.MinActiveDelta = int64(rapid.IntRange(-2, 2).Draw(t, "mac_d"))
+	if rapid.IntRange(0, 3).Draw(t, "mac_abs") == 0 {
+		v := rapid.SampledFrom([]uint64{1 << 31, 1<<32 - 1, 1 << 32, 1<<63 - 1, 1 << 63, 1<<63 + 10, ^uint64(0) - 1, ^uint64(0), 0}).Draw(t, "mac_abs_v")
+		c.MinActiveAbs = &v
+	}
+	if rapid.IntRange(0, 5).Draw(t, "mgt_abs") == 0 {
+		v := rapid.SampledFrom([]uint64{0, 1 << 63, ^uint64(0)}).Draw(t, "mgt_abs_v")
+		c.MinTimeAbs = &v
+	}
 	ks := rapid.IntRange(0, 9).Draw(t, "kickstart")
 	c.KickStart = ks <= 2
 	c.KickStartSigs = ks == 2
@@ -462,7 +482,7 @@ func genCase(t *rapid.T) *Case {
 func TestCheck(t *testing.T) {
 	r := report.Begin("C13")
 	defer r.Finish()
-	r.Rule("generated (preset, eth1 hash/time, ordered deposit list) cases: valid deposits, bad proof-of-possession, undecodable and infinity pubkeys, top-ups (good and junk signatures), repeats of skipped keys, a skipped key that later deposits validly, amounts below/at/above MAX_EFFECTIVE_BALANCE and off-increment, corrupted proofs; proofs from the harness's own deposit tree; GenesisFromEth1, KickStartState and KickStartStateWithSignatures (right keys: same state; one wrong key: error) against refspec.initialize_beacon_state_from_eth1, returned EpochsContext against NewEpochsContext, IsValidGenesisState with MIN_GENESIS_* drawn around the produced values. non-trivial = >=1 skipped deposit or top-up or non-activated validator (or a rejected list); distinct key = (preset family, entry point, branch-kind set)")
+	r.Rule("generated (preset, eth1 hash/time, ordered deposit list) cases: valid deposits, bad proof-of-possession, undecodable and infinity pubkeys, top-ups (good and junk signatures), repeats of skipped keys, a skipped key that later deposits validly, amounts below/at/above MAX_EFFECTIVE_BALANCE and off-increment, corrupted proofs; proofs from the harness's own deposit tree; GenesisFromEth1, KickStartState and KickStartStateWithSignatures (right keys: same state; one wrong key: error) against refspec.initialize_beacon_state_from_eth1, returned EpochsContext against NewEpochsContext, IsValidGenesisState with MIN_GENESIS_* drawn around the produced values or from the whole 64-bit range (2^31 … 2^63 … 2^64-1). non-trivial = >=1 skipped deposit or top-up or non-activated validator (or a rejected list); distinct key = (preset family, entry point, branch-kind set)")
 	r.Assume("refspec/refssz are the spec (harness transcription)", "BLS library trusted on both sides", "lists producing fewer than SLOTS_PER_EPOCH validators or no active validator: the documented outcome is an error")
 	replay := func(raw json.RawMessage) *report.Failure {
 		var c Case
@@ -475,7 +495,7 @@ func TestCheck(t *testing.T) {
 	if r.Replay != "" {
 		return
 	}
-	r.Mandatory("schedule:altair-at-epoch-0", "entry:GenesisFromEth1", "entry:KickStartState", "entry:KickStartStateWithSignatures", "branch:new", "branch:badpop", "branch:badkey", "branch:infkey", "branch:topup", "branch:revive", "branch:topup-of-skipped", "branch:not-all-active")
+	r.Mandatory("valid-genesis:min-active-count-from-the-whole-64-bit-range", "schedule:altair-at-epoch-0", "entry:GenesisFromEth1", "entry:KickStartState", "entry:KickStartStateWithSignatures", "branch:new", "branch:badpop", "branch:badkey", "branch:infkey", "branch:topup", "branch:revive", "branch:topup-of-skipped", "branch:not-all-active")
 	r.Search(t, "lists", 0, r.N(2400, 40000), func(rt *rapid.T) (any, *report.Failure) {
 		c := genCase(rt)
 		return c, run(r, c)
